@@ -139,12 +139,14 @@ def mutants(prop, names, tier, runs):
             with open(meta) as f:
                 m = json.load(f)
             if str(m.get('check_result', '')).startswith('NOT-CAUGHT-BY-DESIGN'):
-                status, detail = 'caught-not(by design)', m.get('check_detail', '')[:160]
+                status, detail = 'accepted-miss', m.get('check_detail', '')[:160]
         print('%-8s %-40s %-10s %s' % (prop, name, status, detail))
         sys.stdout.flush()
         res.append((name, status))
-    missed = [n for n, s in res if not s.startswith('caught') or '(!)' in s or 'replay-failed' in s]
-    print('MUTANTS %s: %d/%d caught%s' % (prop, len(res) - len(missed), len(res), (' ; not caught: %s' % missed) if missed else ''))
+    accepted = [n for n, s in res if s == 'accepted-miss']
+    missed = [n for n, s in res if s != 'accepted-miss' and (not s.startswith('caught') or '(!)' in s or 'replay-failed' in s)]
+    print('MUTANTS %s: %d/%d caught%s%s' % (prop, len(res) - len(missed) - len(accepted), len(res), (' ; not caught: %s' % missed) if missed else '',
+                                           (' ; outside the statement, not caught by design: %s' % accepted) if accepted else ''))
     return 0 if not missed else 1
 
 
